@@ -426,8 +426,70 @@ func fillOutOfDomain(c *Ctx) []Case {
 	return out
 }
 
+// simultaneousRenames: one fill that renames several variables of ONE array node at once - swaps,
+// rotations, a name handed over to a neighbour that gets a value in the same call - in every node
+// kind, bare, inside lists and through a message. The fill is a simultaneous substitution: what
+// counts is the set of names afterwards, not an order in which the entries are applied.
+func simultaneousRenames(c *Ctx, viaMessage bool) []Case {
+	var out []Case
+	type kind struct {
+		k   string
+		w   int
+		val string
+		lit Slot
+	}
+	kinds := []kind{
+		{"U", 1, uintTok(8, 7), Slot{U: 9}}, {"U", 8, uintTok(64, 1<<63), Slot{U: 9}}, {"I", 2, sintTok(0, -7), Slot{I: -9}}, {"I", 8, sintTok(64, -1<<63), Slot{I: 9}},
+		{"F", 4, "f64:4609434218613702656", Slot{Bits: 1069547520}}, {"F", 8, "f64:4609434218613702656", Slot{Bits: 4609434218613702656}},
+		{"B", 0, sintTok(0, 200), Slot{I: 1}}, {"BO", 0, "b:1", Slot{B: false}},
+	}
+	type fl struct{ k, v string }
+	for _, kd := range kinds {
+		leaf := func() *Node {
+			return &Node{Kind: kd.k, W: kd.w, Slots: []Slot{{IsVar: true, Name: "a"}, kd.lit, {IsVar: true, Name: "b"}, {IsVar: true, Name: "c"}}}
+		}
+		fills := [][]fl{
+			{{"a", strTok("b")}, {"b", strTok("a")}},                               // swap
+			{{"b", strTok("a")}, {"a", strTok("b")}},                               // swap, other order of entries
+			{{"a", strTok("b")}, {"b", strTok("c")}, {"c", strTok("a")}},           // rotation
+			{{"a", strTok("b")}, {"b", kd.val}},                                    // name handed to the left, its owner gets a value
+			{{"b", strTok("a")}, {"a", kd.val}},                                    // ... to the right
+			{{"c", strTok("a")}, {"a", strTok("fresh")}},                           // name freed in the same call
+			{{"a", strTok("b")}},                                                   // collision: refused
+			{{"a", strTok("c")}, {"b", strTok("c")}},                               // two onto one: refused
+			{{"a", strTok("a")}},                                                   // onto itself: nothing changes
+			{{"a", strTok("b")}, {"b", strTok("a")}, {"c", kd.val}},                // swap next to a value
+		}
+		shapes := []func() *Node{
+			leaf,
+			func() *Node { return &Node{Kind: "L", Slots: []Slot{{Child: leaf()}, {Child: &Node{Kind: "A", Str: []byte("end")}}}} },
+			func() *Node {
+				return &Node{Kind: "L", Slots: []Slot{{Child: &Node{Kind: "L", Slots: []Slot{{Child: leaf()}}}}, {IsVar: true, Name: "tail"}}}
+			},
+		}
+		for si, mk := range shapes {
+			for _, f := range fills {
+				parts := []string{fmt.Sprint(len(f))}
+				for _, e := range f {
+					parts = append(parts, hxs(e.k), e.v)
+				}
+				if viaMessage {
+					m := genMsgDesc(c.R, mk(), 0)
+					out = append(out, Case{Op: "mprog " + m.newStep() + " | fill " + strings.Join(parts, " ") + " | wait 0 | sess 3 00000009", Decisive: true, Nontrivial: true,
+						Tags: []string{"simultaneous-rename:" + kd.k}})
+				} else {
+					out = append(out, Case{Op: "fillitem " + mk().Proto() + " | " + strings.Join(parts, " "), Decisive: true, Nontrivial: true,
+						Tags: []string{fmt.Sprintf("simultaneous-rename:%s/shape%d", kd.k, si)}}.fields(itemKeys))
+				}
+			}
+		}
+	}
+	return out
+}
+
 func suiteC09(c *Ctx) []Suite {
 	return []Suite{
+		{Name: "fill/simultaneous-renames", Gen: func(c *Ctx) []Case { return simultaneousRenames(c, false) }},
 		{Name: "fill/renames-and-refusals", Gen: fillOutOfDomain},
 		// templates with numbered ellipses: counts under names that name none of them (the other
 		// spelling of one that exists, one index too far) are unknown keys like any other
